@@ -56,7 +56,15 @@ func (r *rewriter) isCallStmtOf(pkg loader.Pkg, n ast.Node, callee types.Object)
 	if !ok {
 		return nil, false
 	}
-	call, ok := expr.X.(*ast.CallExpr)
+	x := expr.X
+	for { // (Yield(1)) is a yield stmt as well
+		paren, ok := x.(*ast.ParenExpr)
+		if !ok {
+			break
+		}
+		x = paren.X
+	}
+	call, ok := x.(*ast.CallExpr)
 	if !ok {
 		return nil, false
 	}
